@@ -1,6 +1,7 @@
 //! Verification harness: runs the working tree of /repo on cases written by the /verif checks.
 mod canon;
 mod cmd_feel;
+mod cmd_types;
 mod cmd_ws;
 
 fn main() {
@@ -9,8 +10,9 @@ fn main() {
   match cmd.as_str() {
     "feel" => cmd_feel::main(),
     "ws" => cmd_ws::main(),
+    "types" => cmd_types::main(),
     _ => {
-      eprintln!("usage: dv feel|ws");
+      eprintln!("usage: dv feel|ws|types");
       std::process::exit(2);
     }
   }
